@@ -260,6 +260,23 @@ func CheckOutcome(ix *Index) (out []Finding, obs map[string]int64) {
 			continue // C10's business
 		}
 		if r.Sc.Cfg.EarlyReturn {
+			// the caller's own context ended strictly before the request could be queued (blocked on a
+			// full shard channel): the call must return promptly with the context error
+			endedAt, endedFirst := time.Duration(0), false
+			if q.cancel != nil && q.cancel.Seq < q.ret.Seq {
+				endedAt, endedFirst = durMax(q.cancel.VT, q.call.VT), true
+			} else if q.hasDeadline() && q.ret.VT-q.call.VT >= q.spec.Deadline {
+				endedAt, endedFirst = q.call.VT+q.spec.Deadline, true
+			}
+			if endedFirst && q.spec.items > 0 && (q.enq == nil || q.enq.VT > endedAt) {
+				obs["requests_cancelled_before_being_queued"]++
+				if q.ret.VT > endedAt {
+					add("cancelled call did not return promptly", fmt.Sprintf("%s (early_return, not yet queued): context ended at %v, call returned at %v", id, endedAt, q.ret.VT))
+				} else if !errors.Is(q.ret.Err, context.Canceled) && !errors.Is(q.ret.Err, context.DeadlineExceeded) {
+					add("cancelled call returned an error that is not the context error", fmt.Sprintf("%s (early_return, not yet queued): %v", id, q.ret.Err))
+				}
+				continue
+			}
 			if q.enq != nil {
 				obs["early_return_calls"]++
 				if q.ret.Err != nil {
